@@ -40,6 +40,15 @@ type Style struct {
 	// 3 = a CR instead of the blank between the tokens of a statement.
 	// Like ZeroPad: not drawn by RandomStyle, not shown by String() when 0.
 	BareCR int
+	// Wrap > 0 breaks the line at the places inside one declaration where the
+	// grammar (like Thrift's lexer everywhere) lets white space span lines:
+	// between "oneway" and the return type, the return type and the method
+	// name, ")" and "throws", "throws" and "(", a field name and its "=", an
+	// operation's ":" and its type.  1 = bare line break, 2 = "// w" line
+	// comment then the break, 3 = "# w" then the break, 4 = break then a
+	// "/* w */" block comment.  Like ZeroPad: not drawn by RandomStyle, not
+	// shown by String() when 0.
+	Wrap int
 }
 
 // DefaultStyle is the plain rendering.
@@ -69,6 +78,9 @@ func (s Style) String() string {
 	}
 	if s.BareCR > 0 {
 		out += fmt.Sprintf(" barecr%d", s.BareCR)
+	}
+	if s.Wrap > 0 {
+		out += fmt.Sprintf(" wrap%d", s.Wrap)
 	}
 	return out
 }
@@ -100,6 +112,25 @@ func (r *renderer) sp() string {
 		return "\t"
 	}
 	return " "
+}
+
+// wrap returns the separator at a place where a declaration may continue on
+// the next line (see Style.Wrap).
+func (r *renderer) wrap(indent string) string {
+	switch r.s.Wrap {
+	case 1:
+		return "\n" + indent
+	case 2:
+		r.n++
+		return r.sp() + "// w" + strconv.Itoa(r.n) + "\n" + indent
+	case 3:
+		r.n++
+		return r.sp() + "# w" + strconv.Itoa(r.n) + "\n" + indent
+	case 4:
+		r.n++
+		return "\n" + indent + "/* w" + strconv.Itoa(r.n) + " */" + r.sp()
+	}
+	return r.sp()
 }
 
 // in returns the separator between two tokens of one statement.
@@ -244,7 +275,7 @@ func (r *renderer) field(indent string, f *Field, sep string) {
 	}
 	r.b.WriteString(r.typ(f.Type) + r.in() + f.Name)
 	if f.Default != nil {
-		r.b.WriteString(r.sp() + "=" + r.sp() + r.value(f.Default))
+		r.b.WriteString(r.wrap(indent+" ") + "=" + r.sp() + r.value(f.Default))
 	}
 	r.b.WriteString(r.ann(f.Ann) + sep + "\n")
 }
@@ -324,14 +355,14 @@ func RenderFile(f *File, s Style) string {
 				r.doc(ind, m.Comment)
 				r.b.WriteString(ind)
 				if m.Oneway {
-					r.b.WriteString("oneway" + r.sp())
+					r.b.WriteString("oneway" + r.wrap(ind+" "))
 				}
 				if m.Ret == nil {
 					r.b.WriteString("void")
 				} else {
 					r.b.WriteString(r.typ(m.Ret))
 				}
-				r.b.WriteString(r.sp() + m.Name + "(")
+				r.b.WriteString(r.wrap(ind+" ") + m.Name + "(")
 				if len(m.Args) > 0 {
 					r.b.WriteString("\n")
 					for _, a := range m.Args {
@@ -341,7 +372,7 @@ func RenderFile(f *File, s Style) string {
 				}
 				r.b.WriteString(")")
 				if len(m.Throws) > 0 {
-					r.b.WriteString(r.sp() + "throws" + r.sp() + "(\n")
+					r.b.WriteString(r.wrap(ind+" ") + "throws" + r.wrap(ind+" ") + "(\n")
 					for _, a := range m.Throws {
 						r.field(ind+ind+" ", a, s.FieldSep)
 					}
@@ -361,7 +392,7 @@ func RenderFile(f *File, s Style) string {
 			for _, op := range sc.Ops {
 				r.gap(ind)
 				r.doc(ind, op.Comment)
-				r.b.WriteString(ind + op.Name + ":" + r.sp() + r.typ(op.Type) + r.ann(op.Ann) + s.OpSep + "\n")
+				r.b.WriteString(ind + op.Name + ":" + r.wrap(ind+" ") + r.typ(op.Type) + r.ann(op.Ann) + s.OpSep + "\n")
 			}
 			r.end(sc.Ann)
 		}
